@@ -1,2 +1,187 @@
-(* Properties/C20.v — placeholder while the model is being validated *)
-From PV Require Import Common.Util Gen.ReqConsts Req.Merge Req.Install Req.Spec Req.ReqCheck.
+(* Properties/C20.v — property theorems only; every proof is [exact <lemma>] (lemmas in Proofs/Req*.v).
+   C20: "Requirements resolution is order-independent and never overrides the host".
+   Version order: ANY [vvalid]/[vle] that is a total preorder on the valid strings; '' and the unpinned
+   marker are not versions (packaging.Version in the correspondence).  [cfg] = deviation switches: [all_off] is the conformant
+   model, [as_is] the code today; [cfg_ok vvalid cfg ls] says: if D24 is present (versions are not
+   validated before being recorded) then every pinned version in [ls] parses. *)
+From PV Require Import Common.Util Gen.ReqConsts Req.Merge Req.Install Req.Spec Req.ReqCheck
+  Proofs.ReqMerge Proofs.ReqInstall Proofs.ReqHistory Proofs.ReqSpecBridge.
+From Coq Require Import Permutation.
+
+(* The version selected for each package is the highest '==' pin, an unpinned entry only if no (valid) pin exists,
+   and no entry only if nothing (valid) requires it. *)
+Theorem C20_merge_max :
+  forall (vvalid : str -> bool) (vle : str -> str -> bool) (installed : str -> option str),
+  (forall a b, vvalid a = true -> vvalid b = true -> vle a b = true \/ vle b a = true) ->
+  (forall a b c, vvalid a = true -> vvalid b = true -> vvalid c = true -> vle a b = true -> vle b c = true -> vle a c = true) ->
+  vvalid [] = false -> vvalid unpinned_version = false ->
+  forall (cfg : deviations) (ls : list (N * str)) (p : str),
+  cfg_ok vvalid cfg ls ->
+  let sp := negb (d25_no_strip cfg) in
+  match tlookup p (merge_lines vvalid vle installed cfg ls) with
+  | Some e =>
+      e_inst e = installed p /\
+      match e_ver e with
+      | Some w => vvalid w = true /\ requires sp p (Some w) ls /\
+                  (forall v, requires sp p (Some v) ls -> vvalid v = true -> vle v w = true)
+      | None => requires sp p None ls /\ (forall v, requires sp p (Some v) ls -> vvalid v = false)
+      end
+  | None => forall ov, requires sp p ov ls -> exists v, ov = Some v /\ vvalid v = false
+  end.
+Proof. exact merge_max. Qed.
+Print Assumptions C20_merge_max.
+
+(* ... independent of the order of files and lines: any permutation of the (file, line) list selects equivalent
+   versions (same packages; both unpinned, or versions equal under the version order). *)
+Theorem C20_permutation :
+  forall (vvalid : str -> bool) (vle : str -> str -> bool) (installed : str -> option str),
+  (forall a b, vvalid a = true -> vvalid b = true -> vle a b = true \/ vle b a = true) ->
+  (forall a b c, vvalid a = true -> vvalid b = true -> vvalid c = true -> vle a b = true -> vle b c = true -> vle a c = true) ->
+  vvalid [] = false -> vvalid unpinned_version = false ->
+  forall (cfg : deviations) (ls ls' : list (N * str)),
+  cfg_ok vvalid cfg ls -> Permutation ls ls' ->
+  table_equiv vvalid vle (merge_lines vvalid vle installed cfg ls) (merge_lines vvalid vle installed cfg ls').
+Proof. exact merge_perm. Qed.
+Print Assumptions C20_permutation.
+
+(* the same on requirement trees as the real function reads them (REQUIREMENTS_PATHS discovery included) *)
+Theorem C20_permutation_files :
+  forall (vvalid : str -> bool) (vle : str -> str -> bool) (installed : str -> option str),
+  (forall a b, vvalid a = true -> vvalid b = true -> vle a b = true \/ vle b a = true) ->
+  (forall a b c, vvalid a = true -> vvalid b = true -> vvalid c = true -> vle a b = true -> vle b c = true -> vle a c = true) ->
+  vvalid [] = false -> vvalid unpinned_version = false ->
+  forall (cfg : deviations) (files files' : list rfile),
+  cfg_ok vvalid cfg (flat_lines (discover files)) ->
+  Permutation (flat_lines (discover files)) (flat_lines (discover files')) ->
+  table_equiv vvalid vle (process_all vvalid vle installed cfg files) (process_all vvalid vle installed cfg files').
+Proof. exact process_all_perm. Qed.
+Print Assumptions C20_permutation_files.
+
+(* Comments, blank lines and unsupported specifiers are ignored: a line the property's own reading ([spec_line]:
+   nothing before '#', or one of , < >, or more than one "==") ignores can be deleted anywhere without changing
+   the result — for every setting of the switches, every version order. *)
+Theorem C20_ignored :
+  forall (vvalid : str -> bool) (vle : str -> str -> bool) (installed : str -> option str)
+         (cfg : deviations) (pre post : list (N * str)) (f : N) (l : str),
+  spec_line l = None ->
+  merge_lines vvalid vle installed cfg (pre ++ (f, l) :: post) = merge_lines vvalid vle installed cfg (pre ++ post).
+Proof. exact merge_ignored_spec. Qed.
+Print Assumptions C20_ignored.
+
+(* Model |= executable Spec: the table the conformant Model computes passes the very predicate ([spec_table_ok]: one
+   entry per package, highest pin, unpinned only without pin, nothing from ignored lines) that the correspondence files
+   evaluate on what the real code returned. *)
+Theorem C20_model_implies_spec_table :
+  forall (vvalid : str -> bool) (vle : str -> str -> bool) (installed : str -> option str),
+  (forall a b, vvalid a = true -> vvalid b = true -> vle a b = true \/ vle b a = true) ->
+  (forall a b c, vvalid a = true -> vvalid b = true -> vvalid c = true -> vle a b = true -> vle b c = true -> vle a c = true) ->
+  vvalid [] = false -> vvalid unpinned_version = false ->
+  forall ls : list (N * str),
+  spec_table_ok vvalid vle (map snd ls) (table_otable (merge_lines vvalid vle installed all_off ls)) = true.
+Proof. exact conformant_table_ok. Qed.
+Print Assumptions C20_model_implies_spec_table.
+
+(* REQUIREMENTS_PATHS (regenerated from const.py) finds exactly the files at <pyscript>/, apps/X, modules/X, scripts/X *)
+Theorem C20_discovery : forall dir : list str,
+  existsb (fun pat => dir_match pat dir) req_paths = spec_counts dir.
+Proof. exact discover_counts. Qed.
+Print Assumptions C20_discovery.
+
+(* Nothing is installed unless allow_all_imports is set. *)
+Theorem C20_gate :
+  forall (vvalid : str -> bool) (vle : str -> str -> bool) (inst : str -> option str) (cfg : deviations)
+         (files : list rfile) (ia : str -> option str) (rec0 : alist) (todo : plan_t) (r : alist) (u : bool),
+  install vvalid vle false ia rec0 (process_all vvalid vle inst cfg files) = ODone todo r u -> todo = [].
+Proof. exact run_gate. Qed.
+Print Assumptions C20_gate.
+
+(* A package already installed by something other than pyscript (installed; not in pyscript's record, or recorded at
+   another version) is never handed to the installer.  Key level, every cfg. *)
+Theorem C20_foreign_untouched :
+  forall (vvalid : str -> bool) (vle : str -> str -> bool) (inst : str -> option str) (cfg : deviations)
+         (files : list rfile) (allow : bool) (ia : str -> option str) (rec0 : alist) (todo : plan_t) (r : alist)
+         (u : bool) (p iv : str),
+  install vvalid vle allow ia rec0 (process_all vvalid vle inst cfg files) = ODone todo r u ->
+  truthy (inst p) = Some iv ->
+  alookup p rec0 = None \/ (exists rv, alookup p rec0 = Some rv /\ veq vle rv iv = false) ->
+  ~ In p (map fst todo).
+Proof. exact run_foreign. Qed.
+Print Assumptions C20_foreign_untouched.
+
+(* Package level (names compared after stripping), for the model with D25 repaired: no requirement handed to the
+   installer names a foreign package.  False for the code as it is: C20_refuted_D25. *)
+Theorem C20_foreign_untouched_pkg :
+  forall (vvalid : str -> bool) (vle : str -> str -> bool) (inst : str -> option str) (cfg : deviations)
+         (files : list rfile) (allow : bool) (ia : str -> option str) (rec0 : alist) (todo : plan_t) (r : alist)
+         (u : bool) (p iv : str),
+  d25_no_strip cfg = false ->
+  install vvalid vle allow ia rec0 (process_all vvalid vle inst cfg files) = ODone todo r u ->
+  truthy (inst p) = Some iv ->
+  alookup p rec0 = None \/ (exists rv, alookup p rec0 = Some rv /\ veq vle rv iv = false) ->
+  ~ In p (map (fun a => strip (fst a)) todo).
+Proof. exact run_foreign_pkg. Qed.
+Print Assumptions C20_foreign_untouched_pkg.
+
+(* A package pyscript itself installed (recorded at the installed version) is updated iff the pinned version differs;
+   an unpinned requirement never touches it. *)
+Theorem C20_own_updated_iff_differs :
+  forall (vvalid : str -> bool) (vle : str -> str -> bool) (inst : str -> option str) (cfg : deviations)
+         (files : list rfile) (allow : bool) (ia : str -> option str) (rec0 : alist) (todo : plan_t) (r : alist)
+         (u : bool) (p iv rv : str) (e : entry),
+  install vvalid vle allow ia rec0 (process_all vvalid vle inst cfg files) = ODone todo r u ->
+  truthy (inst p) = Some iv -> alookup p rec0 = Some rv ->
+  vvalid rv = true -> vvalid iv = true -> veq vle rv iv = true ->
+  tlookup p (process_all vvalid vle inst cfg files) = Some e ->
+  match e_ver e with
+  | Some w => vvalid w = true -> (In p (map fst todo) <-> veq vle w iv = false)
+  | None => ~ In p (map fst todo)
+  end.
+Proof. exact run_own. Qed.
+Print Assumptions C20_own_updated_iff_differs.
+
+(* pyscript's record matches what it installed, one run: every pinned requirement handed to the installer is recorded
+   at that version, every unpinned one at the version found afterwards (or not at all if none is found), and every
+   other entry of the new record was already in the old one. *)
+Theorem C20_record_matches_run :
+  forall (vvalid : str -> bool) (vle : str -> str -> bool) (inst : str -> option str) (cfg : deviations)
+         (files : list rfile) (allow : bool) (ia : str -> option str) (rec0 : list (str * str)) (todo : plan_t)
+         (r : alist) (u : bool),
+  NoDup (map fst rec0) -> no_marker rec0 ->
+  install vvalid vle allow ia rec0 (process_all vvalid vle inst cfg files) = ODone todo r u ->
+  (forall p w, In (p, Some w) todo -> alookup p r = Some w) /\
+  (forall p, In (p, None) todo -> alookup p r = truthy (ia p)) /\
+  (forall p v, alookup p r = Some v -> ~ In p (map fst todo) -> alookup p rec0 = Some v).
+Proof. exact run_record. Qed.
+Print Assumptions C20_record_matches_run.
+
+(* ... and always, over repeated runs with arbitrary external installs / upgrades / removals, changing files and
+   changing allow_all_imports in between: every entry of the record is the version that pyscript's latest installer
+   call for that package installed ([g'] is that ghost table), provided the unpinned marker string is never reported
+   as an installed version ([envs_clean]). *)
+Theorem C20_record_matches :
+  forall (vvalid : str -> bool) (vle : str -> str -> bool) (cfg : deviations) (ss : list step_in) (w : world) (g : alist),
+  rec_ok (w_rec w) g -> envs_clean vvalid vle cfg w ss ->
+  let '(w', g') := run_hist vvalid vle cfg w g ss in rec_ok (w_rec w') g'.
+Proof. exact history_record_matches. Qed.
+Print Assumptions C20_record_matches.
+
+(* The code as it is (switches on) does not have the property. *)
+Theorem C20_refuted_D24 :
+  exists ls ls' : list (N * str), Permutation ls ls' /\
+    ~ table_equiv (rk_valid ex_ranks) (rk_le ex_ranks)
+        (merge_lines (rk_valid ex_ranks) (rk_le ex_ranks) (fun _ => None) as_is ls)
+        (merge_lines (rk_valid ex_ranks) (rk_le ex_ranks) (fun _ => None) as_is ls').
+Proof. exact refuted_D24. Qed.
+Print Assumptions C20_refuted_D24.
+
+Theorem C20_refuted_D25 :
+  let env := [(s_foo, [48; 46; 53]%N)] in
+  let t := process_all (rk_valid ex_ranks) (rk_le ex_ranks) (fun k => alookup k env) as_is
+             [{| f_id := 0; f_dir := []; f_lines := [l_foo_sp_10; l_foo_20] |}] in
+  (exists k1 k2 : str, k1 <> k2 /\ strip k1 = strip k2 /\ In k1 (map fst t) /\ In k2 (map fst t)) /\
+  (exists (todo : plan_t) (r : alist) (u : bool),
+     install (rk_valid ex_ranks) (rk_le ex_ranks) true (fun _ => None) [] t = ODone todo r u /\
+     truthy (alookup s_foo env) = Some [48; 46; 53]%N /\
+     In s_foo (map (fun a => strip (fst a)) todo)).
+Proof. exact refuted_D25. Qed.
+Print Assumptions C20_refuted_D25.
